@@ -40,6 +40,19 @@ class DimError(Exception):
     pass
 
 
+def opaque(outs_):
+    """an outcome that is a call into a class / function the reference tree does not have (and the engine could not see through): the
+    cascade lives there -- not decided"""
+    from sa.sym import PINNED
+    for o in outs_ or []:
+        for x in walk(o):
+            if x[0] == "global" and x[2] in ("class", "func") and ":" in x[1]:
+                mod_, nm_ = x[1].split(":")
+                if nm_.split(".")[0] not in PINNED.get(mod_, ()) and not any(n_.startswith(nm_.split(".")[0] + ".") for n_ in PINNED.get(mod_, ())):
+                    return x[1]
+    return None
+
+
 class C10:
     def __init__(self, ctx: Ctx):
         self.ctx = ctx
@@ -499,6 +512,10 @@ class C10:
             if outs is None:
                 ctx.undec("R10.6", site, f"scenario `{name}`: {err}")
                 continue
+            op_ = opaque(outs)
+            if op_ and not pred(outs):
+                ctx.undec("R10.6", site, f"scenario `{name}`: the result is computed inside {op_}, which the reference tree does not have and the engine could not inline")
+                continue
             if pred(outs):
                 ctx.ok("R10.6", site, f"scenario `{name}` -> {want[:70]}")
             else:
@@ -511,6 +528,8 @@ class C10:
             c[0] == "cmp" and any(y in (P["term_mapping"], P["tag_mapping"], P["key_mapping"]) for y in walk(c)) for c in conjuncts(r.live)) for r in tf)
         if first_after_empty:
             ctx.ok("R10.6", site, "tag_fn, when given, is consulted before every mapping")
+        elif opaque([r.term for r in s.returns]):
+            ctx.undec("R10.6", site, f"tag_fn precedence: the cascade is computed inside {opaque([r.term for r in s.returns])}, which the engine could not inline")
         else:
             ctx.bad("R10.6", file, "label_to_tags", "tag_fn precedence", "tag_fn must be tried first (after the empty-label check), before the mappings", s.node.lineno)
 
@@ -662,6 +681,8 @@ class C10:
         for name, outs, pred, wtxt in checks:
             if outs is None:
                 ctx.undec("R10.6", site, f"scenario `{name}` not resolved")
+            elif opaque(outs) and not pred(outs):
+                ctx.undec("R10.6", site, f"scenario `{name}`: the result is computed inside {opaque(outs)}, which the reference tree does not have and the engine could not inline")
             elif pred(outs):
                 ctx.ok("R10.6", site, f"scenario `{name}` -> {wtxt[:70]}")
             else:
